@@ -133,6 +133,11 @@ func RunC06(casesPath, tracePath, statsPath string, seed int64, thorough bool) e
 			vals[j] = randHex(rng, 1+rng.Intn(64))
 		}
 		remaining := uint64(1) << 62
+		heavy := i%3 == 2
+		if heavy {
+			// total power between 2^62 and 2^63 (a report's power is a uint64): one reporter holds 2^62 or more
+			remaining = uint64(1)<<63 - 1
+		}
 		for j := 0; j < n; j++ {
 			var raw string
 			switch rng.Intn(3) {
@@ -153,6 +158,9 @@ func RunC06(casesPath, tracePath, statsPath string, seed int64, thorough bool) e
 				p = 1 + uint64(rng.Int63n(1<<40))
 			default:
 				p = 1 + uint64(rng.Int63n(int64(remaining/uint64(n-j)/2+1)))
+			}
+			if heavy && j == n/2 {
+				p = uint64(1)<<62 + uint64(rng.Intn(1000))
 			}
 			if p >= remaining {
 				p = 1
